@@ -229,6 +229,13 @@ def run(ctx: common.Ctx):
                 key = f"{res.stage}:{res.error_class}:{_short(res.error)}"
                 unsupported[key] = unsupported.get(key, 0) + 1
                 continue
+            if cexec.IF_CONDITION_MARK in res.error:
+                dis += 1
+                ctx.violation("loopy-type-inference:if-with-inexact-condition",
+                              f"program {i} variant {vn}: `%` / `//` applied to an integer where() whose condition is a "
+                              f"floating-point array: loopy infers the conditional as floating point and refuses the operator",
+                              {"program_index": i, "variant": vn, "seed": ctx.seed})
+                continue
             # code generation fails for the tagged variant only?
             b = [r for (j, v2, *_), r in zip(meta, results) if j == i and v2 == "untagged"][0]
             if vn != "untagged" and not b.error and getattr(pv, "named_from_pool", False) \
